@@ -5,6 +5,7 @@ import PoseVerif.Model.JS
 import PoseVerif.Driver.Masked
 import PoseVerif.Driver.Collate
 import PoseVerif.Driver.PoseOps
+import PoseVerif.Model.Frames
 /-!
 `posedriver`: one JSON request per input line, one JSON answer per output line.
 Runs the executable definitions of the model (the same ones the theorems are about).
@@ -153,6 +154,15 @@ def handle (j : Json) : R Json := do
   | "masked_prog" => runMaskedProg j
   | "collate" => runCollate j
   | "body_ops" => runBodyOps j
+  | "dropout" =>
+    let n ← getNat j "n"
+    let dropped ← getNatArr (← j.getObjVal? "dropped")
+    pure (Json.mkObj [("ok", Json.bool true), ("kept", Json.arr ((dropoutKept n dropped).toArray.map natJ)),
+                      ("count", natJ (dropCount (← getNat j "k_req") (← getNat j "k_cap")))])
+  | "tf_dropout" =>
+    let n ← getNat j "n"
+    let shuffle ← getNatArr (← j.getObjVal? "shuffle")
+    pure (Json.mkObj [("ok", Json.bool true), ("kept", Json.arr ((tfDropoutKept n (← getNat j "m") shuffle).toArray.map natJ))])
   | "history" => runHistory j
   | "schedule" => runSchedule j
   | _ => throw s!"unknown op {op}"
